@@ -10,7 +10,7 @@ Open Scope Qc_scope.
 Theorem sem_sound e : forall f s, feval e = Ok f -> sem e = Some s -> R f s.
 Proof.
   induction e; intros f s Ef Es;
-    try (apply (sem_sound_nocall _ eq_refl f s Ef Es)).
+    try (match type of Ef with feval ?e0 = _ => apply (sem_sound_nocall e0 eq_refl f s Ef Es) end).
   all: cbn [feval sem] in Ef, Es.
   - bind_inv Ef fa Ea. obind_inv Es sa Sa. injection Es as <-.
     apply (R_fneg fa f sa (IHe _ _ eq_refl eq_refl) Ef).
@@ -79,8 +79,8 @@ Theorem fsubst_respects_outer f f' g h h' : fok f -> fok f' -> fok g -> fnum g <
 Proof.
   intros Ff Ff' Fg Hg He E E'.
   pose proof (fok_self g Fg) as Rg. pose proof Fg as (Wn & Wd & Hd).
-  destruct (q_at_some (fnum g) (fden g) Hg (fnum f')) as (u & Eu).
-  destruct (q_at_some (fnum g) (fden g) Hg (fden f')) as (v & Ev).
+  destruct (q_at_some (fnum g) (fden g) Wn Hg (fnum f')) as (u & Eu).
+  destruct (q_at_some (fnum g) (fden g) Wn Hg (fden f')) as (v & Ev).
   pose proof (fsubst_den_nz f' g (fr_of g) h' v Rg E' Ev) as Hv.
   assert (R f (fr_of f')) as Rf.
   { split; [exact Ff|split; [apply fok_wf; exact Ff'|split; [apply Ff'|apply frac_equiv_deq; exact He]]]. }
